@@ -7,7 +7,20 @@ Every position where the peer speaks is fed hostile bytes; the monitors only loo
   hang/<position>/<where>            the call did not return within a bound of *logical* steps (frames exchanged on a
                                      virtual clock), or - threaded parts - every workload thread shows no progress
                                      over three samples while one sits in an untimed wait inside nfc.*
+                                     hang/<position>/step-budget/<function>: one input / one link turn made a thread
+                                     execute more than LINE_BUDGET (RUN_LINE_BUDGET) lines of nfc code (sys.monitoring
+                                     LINE events, armed only after the call has been running for a while; >= 50 x the
+                                     most lines any input needs on the unchanged tree - reported as max_lines_per_*)
+                                     hang/<position>/call-blocked/<where>: llc.run()/connect() run in a thread of their
+                                     own (vf-run); it and every thread it started sit in waits with no progress
   (a wall-clock watchdog alone only yields INCONCLUSIVE)
+  malformed-answered/tt3-emulation/...   a command that is structurally malformed by the FeliCa command formats (t3_structure,
+                                     written from the specification) was answered with the success status 00 00
+  malformed-processed/<position>/write/...  ... or part of it was handed to the service's write callback (block data not 16 bytes)
+  service-gone/<position>/listen-thread-ended/...  after hostile input the listen thread of a SNEP / handover server has
+                                     ended although the link controller has not terminated (structural: checked when the
+                                     link loop asks the peer for the next frame / llc.terminated is still False);
+                                     .../fresh-connection-refused-no-service: a fresh CONNECT is answered with DM 02
 
 Positions (documented outcome in brackets):
   dep-frame-initiator / dep-frame-target   Initiator/Target.decode_frame            [PDU | nfc.clf.CommunicationError]
@@ -23,6 +36,10 @@ Positions (documented outcome in brackets):
   llc-run-threaded                         two real LLCs (ThreadedPair), real frames mutated in flight
   snep-server / handover-server            raw hostile messages over a real data link connection
   snep-client                              real SnepClient against a hostile server [value | SnepError | llcp.Error]
+  handover-client                          real HandoverClient (connect / send_records / send_octets / recv_records(timeout)
+                                           / recv_octets) against a hostile handover server: hostile NDEF octets and
+                                           fragments, answers of every length 0..7 at every point where a client waits
+                                           [record list | octets | None | nfc.llcp.Error]
   connect-card                             ContactlessFrontend.connect(card=) on a scripted Device [returns normally]
   connect-llcp                             ContactlessFrontend.connect(llcp=) against a byte-level hostile peer
 """
@@ -65,7 +82,16 @@ REQUIRED = ["n_dep_frame_initiator", "n_dep_frame_target", "n_llcp_decode", "n_t
             "n_dep_initiator", "n_dep_target", "n_llc_run", "n_llc_run_threaded", "n_snep_server", "n_handover_server",
             "n_snep_client", "n_connect_card", "n_connect_llcp", "llc_run_returned", "threads_started",
             "agf_depth_accepted", "outcome_tt3_emulation_misframed_ignored",
-            "tt3_refused_element_at_position_8_or_later"]
+            "tt3_refused_element_at_position_8_or_later",
+            # wave 6: per-position returns of the run loop, deliveries / responses really seen, new monitors
+            "llc_run_returned_mac", "llc_run_returned_connect", "llc_run_returned_threaded",
+            "threaded_injections_delivered", "handover_server_responses_seen", "snep_server_responses_seen",
+            "n_handover_client", "outcome_ho_recvrec_value", "outcome_ho_recvoct_value",
+            "tt3_malformed_judged", "tt3_write_callback_blocks", "tt3_structure_class",
+            "continuity_probes", "continuity_served", "continuity_snep_server_served", "continuity_handover_server_served",
+            "service_listen_threads_checked", "wait_point_cases", "grid_header_only_cases", "llc_run_gb_parameters", "llc_run_gb_mutated",
+            "dep_initiator_dsl_res_positions", "dep_initiator_rls_res_positions",
+            "step_budget_headroom_ok", "step_budget_measured_run_cases", "step_budget_measured_inputs_positions"]
 
 NSHARDS = 16
 
@@ -99,6 +125,192 @@ class Bound(BaseException):
 
 class HarnessBug(BaseException):
     """an exception inside the harness' own peer code: never a verdict about nfcpy (-> inconclusive)"""
+
+
+class StepBound(Bound):
+    """line budget exceeded inside nfc code (raised by the sys.monitoring callback in the thread that runs it)"""
+
+
+class HarnessAccess(BaseException):
+    """the harness could not reach a piece of nfcpy it drives directly (an internal moved / was renamed): says nothing
+    about the property (-> inconclusive)"""
+
+
+LINE_BUDGET = 1000000        # lines of nfc/ndef code for ONE input / ONE link turn; see REQUIRED step_budget_headroom_ok
+
+
+class LineBudget(object):
+    """logical step budget.  While armed, every sys.monitoring LINE event of code that lives under /nfc/ or /ndef/
+    (not the harness) executed by a registered thread is counted; the thread that exceeds its budget gets a StepBound
+    raised at the line it executes.  Arming costs nothing while disarmed; a verdict depends on the number of lines
+    executed for one input only, never on time."""
+
+    def __init__(self):
+        self.mon = getattr(sys, "monitoring", None)
+        self.tool = None
+        self.armed = False
+        self.budget = {}         # thread ident -> budget
+        self.counts = {}         # thread ident -> lines counted since the last reset
+        self.codes = {}
+        self.lock = threading.Lock()
+
+    def _callback(self, code, line):
+        i = threading.get_ident()
+        b = self.budget.get(i)
+        if b is None:
+            return
+        ok = self.codes.get(code)
+        if ok is None:
+            fn = code.co_filename.replace("\\", "/")
+            ok = self.codes[code] = ("/nfc/" in fn or "/ndef/" in fn) and not fn.startswith("/verif/")
+        if not ok:
+            return
+        n = self.counts.get(i, 0) + 1
+        self.counts[i] = n
+        if n > b:
+            self.counts[i] = 0
+            raise StepBound("more than %d lines of nfc code executed for one input (at %s:%s)"
+                            % (b, code.co_filename[-40:], code.co_name))
+
+    def arm(self, idents, budget=LINE_BUDGET):
+        """-> False when sys.monitoring is not available (then nothing is decided by steps)"""
+        mon = self.mon
+        if mon is None:
+            return False
+        with self.lock:
+            if self.tool is None:
+                for tid in (3, 1, 2):
+                    try:
+                        mon.use_tool_id(tid, "vf-c07-steps")
+                        self.tool = tid
+                        break
+                    except ValueError:
+                        continue
+                if self.tool is None:
+                    return False
+                mon.register_callback(self.tool, mon.events.LINE, self._callback)
+            for i in idents:
+                self.counts[i] = 0
+                self.budget[i] = budget
+            if not self.armed:
+                mon.set_events(self.tool, mon.events.LINE)
+                self.armed = True
+        return True
+
+    def disarm(self):
+        with self.lock:
+            self.budget.clear()
+            if self.armed:
+                self.mon.set_events(self.tool, 0)
+                self.armed = False
+
+    def reset(self):
+        """a new input / a link turn: the budget counts per input"""
+        self.counts[threading.get_ident()] = 0
+
+    def lines(self):
+        return self.counts.get(threading.get_ident(), 0)
+
+
+class MainGuard(object):
+    """covers the calls the shard makes in its main thread (pure decoders, llc.activate, process_command, the NFC-DEP
+    positions and connect(card=) on the scripted Device).  A watcher thread sees that the main thread stays inside ONE
+    guarded call for more than ~2 s of wall-clock and then arms the line budget for it: a call that spins gets a
+    StepBound raised inside it (-> violation hang/<position>/step-budget/<function> with the input as witness), a
+    call that is merely slow finishes within its budget.  begin() is the only cost in the hot loops."""
+    _inst = None
+
+    @classmethod
+    def get(cls):
+        if cls._inst is None:
+            cls._inst = MainGuard()
+        return cls._inst
+
+    def __init__(self):
+        self.lb = LineBudget()
+        self.serial = 0
+        self.inside = False
+        self.measuring = False
+        self.max_lines = {}          # label -> most lines seen for one input while measuring
+        self.armed_by_watcher = 0
+        self.main = threading.main_thread().ident
+        t = threading.Thread(target=self._watch, name="vf-guard", daemon=True)
+        t.start()
+        if t in STARTED:                 # not a thread of any case
+            STARTED.remove(t)
+
+    def _watch(self):
+        last, stuck = None, 0
+        while True:
+            real_time.sleep(0.5)
+            s = self.serial
+            if self.inside and s == last:
+                stuck += 1
+            else:
+                stuck = 0
+                if self.lb.armed and not self.measuring and s != last:
+                    self.lb.disarm()
+            last = s
+            if stuck >= 4 and not self.lb.armed:
+                self.armed_by_watcher += 1
+                self.lb.arm([self.main])
+
+    def begin(self):
+        self.serial += 1
+        self.inside = True
+        if self.lb.armed:
+            self.lb.counts[self.main] = 0
+
+    def end(self, label=None):
+        self.inside = False
+        if self.measuring and label is not None:
+            n = self.lb.counts.get(self.main, 0)
+            if n > self.max_lines.get(label, 0):
+                self.max_lines[label] = n
+
+    def measure(self, on):
+        """count the lines per input for a block of inputs (what the budget's head-room is reported against)"""
+        if on and not self.measuring:
+            self.measuring = self.lb.arm([self.main])
+        elif not on and self.measuring:
+            self.measuring = False
+            self.lb.disarm()
+
+    def report(self, R):
+        for label, n in self.max_lines.items():
+            R.max("lines_per_input_" + label.replace("-", "_"), n)
+            R.count("step_budget_measured_inputs_positions")
+            if n * 50 <= LINE_BUDGET:
+                R.count("step_budget_headroom_ok")
+            else:
+                R.inconc("step budget: %s needs %d lines for one input on this tree, the budget of %d lines is less than "
+                         "50 times that" % (label, n, LINE_BUDGET))
+        self.max_lines = {}
+        R.count("step_budget_armed_by_watcher", self.armed_by_watcher)
+        self.armed_by_watcher = 0
+
+
+class AbortPart(BaseException):
+    """enough spinning inputs were witnessed at one position: every further one costs a whole step budget, so the
+    rest of this part of the shard is skipped (the violations are recorded, the run fails anyway)"""
+
+
+STEP_VIOLATIONS = collections.Counter()
+RUN_LB = LineBudget()        # for the threads of the llc-run / connect-llcp cases (the main thread has MainGuard's)
+RUN_WALL = 20.0              # seconds after which a running llc.run()/connect() is looked at (no verdict by itself)
+RUN_LINE_BUDGET = 20000000   # lines of nfc code in one thread between two link turns (a 540-fold nested aggregate that is
+                             # decoded, dispatched and formatted takes ~270 000)
+
+
+def step_violation(R, pos, e, case):
+    """a StepBound left nfc code: hang/<position>/step-budget/<innermost nfc function>"""
+    where = exc_sig(e).split("@", 1)[-1]
+    R.violation("hang/%s/step-budget/%s" % (pos, where),
+                "%s: %s - the call spins instead of returning (logical step count, not time)" % (pos, e), case)
+    STEP_VIOLATIONS[pos] += 1
+    if STEP_VIOLATIONS[pos] >= 2 and "replay" not in case:
+        R.count("part_cut_short_after_step_violations")
+        raise AbortPart(pos)
 
 
 class Stats(object):
@@ -307,12 +519,16 @@ class DepFrames(object):
         self.R = R
         self.CommErr = nfc.clf.CommunicationError
         self.mac = {}
-        for brty in ("106A", "212F", "424F"):
-            i = nfc.dep.Initiator(clf=None)
-            i.target = nfc.clf.RemoteTarget(brty)
-            t = nfc.dep.Target(clf=None)
-            t.target = nfc.clf.LocalTarget(brty)
-            self.mac[("I", brty)], self.mac[("T", brty)] = i, t
+        self.g = MainGuard.get()
+        try:            # the harness reaches into nfc.dep here: when that fails nothing is said about the property
+            for brty in ("106A", "212F", "424F"):
+                i = nfc.dep.Initiator(clf=None)
+                i.target = nfc.clf.RemoteTarget(brty)
+                t = nfc.dep.Target(clf=None)
+                t.target = nfc.clf.LocalTarget(brty)
+                self.mac[("I", brty)], self.mac[("T", brty)] = i.decode_frame, t.decode_frame
+        except (AttributeError, TypeError) as e:
+            raise HarnessAccess("nfc.dep.Initiator/Target(clf=None).decode_frame not reachable: %r" % (e,))
         self.st = {"I": Stats(R, "dep-frame-initiator"), "T": Stats(R, "dep-frame-target")}
         self.exhaustive = False      # inside an enumeration that is distinct by construction
 
@@ -323,10 +539,16 @@ class DepFrames(object):
             st.ex += 1
         else:
             self.R.case((st.pos, brty, frame))
+        decode_frame, g = self.mac[(role, brty)], self.g
+        g.begin()
         try:
-            r = self.mac[(role, brty)].decode_frame(bytearray(frame))
+            r = decode_frame(bytearray(frame))
         except self.CommErr as e:
             st.c[type(e).__name__] += 1
+            return
+        except StepBound as e:
+            st.c["STEP-BUDGET"] += 1
+            step_violation(self.R, st.pos, e, {"pos": "dep-frame", "role": role, "brty": brty, "frame": bytes(frame)})
             return
         except Exception as e:
             st.c["UNDOCUMENTED:" + type(e).__name__] += 1
@@ -334,6 +556,8 @@ class DepFrames(object):
                    "%s.decode_frame(%s) at %s raised %s instead of a CommunicationError"
                    % ("Initiator" if role == "I" else "Target", bytes(frame)[:24].hex(), brty, type(e).__name__))
             return
+        finally:
+            g.end("dep-frame")
         st.c["decoded:" + type(r).__name__] += 1
 
     def run(self, desc, rng):
@@ -385,7 +609,9 @@ class DepFrames(object):
                     if k % NSHARDS != shard % NSHARDS:
                         continue
                     fr = dep_frame(body, brty)
+                    self.g.measure(True)
                     self.check(role, brty, fr)
+                    self.g.measure(False)
                     R.seen("dep_templates", role + ":" + name)
                     for m in systematic_mutations(fr, len_pos=1 if brty == "106A" else 0):
                         self.check(role, brty, m)
@@ -400,6 +626,7 @@ class DepFrames(object):
         for role in "IT":
             self.st[role].flush()
         R.bulk(self.st["I"].ex + self.st["T"].ex, self.st["I"].ex + self.st["T"].ex)
+        self.g.report(R)
 
 
 # =================================================================================================
@@ -468,6 +695,11 @@ class LlcpDecode(object):
         self.P, self.R = P, R
         self.st = Stats(R, "llcp-decode")
         self.exhaustive = False
+        self.g = MainGuard.get()
+        try:
+            self.decode, self.Error = P.decode, P.Error
+        except AttributeError as e:
+            raise HarnessAccess("nfc.llcp.pdu.decode / Error not reachable: %r" % (e,))
 
     def check(self, b, want_depth=False):
         st = self.st
@@ -476,10 +708,16 @@ class LlcpDecode(object):
             st.ex += 1
         else:
             self.R.case(("llcp-decode", b))
+        g = self.g
+        g.begin()
         try:
-            p = self.P.decode(b)
-        except self.P.Error as e:
+            p = self.decode(b)
+        except self.Error as e:
             st.c[type(e).__name__] += 1
+            return None
+        except StepBound as e:
+            st.c["STEP-BUDGET"] += 1
+            step_violation(self.R, "llcp-decode", e, {"pos": "llcp-decode", "data": bytes(b)})
             return None
         except Exception as e:
             st.c["UNDOCUMENTED:" + type(e).__name__] += 1
@@ -487,6 +725,8 @@ class LlcpDecode(object):
                    "nfc.llcp.pdu.decode(%d bytes %s..) raised %s instead of pdu.DecodeError"
                    % (len(b), bytes(b)[:16].hex(), type(e).__name__))
             return None
+        finally:
+            g.end("llcp-decode")
         st.c["decoded"] += 1
         if want_depth:
             d = agf_depth(p)
@@ -539,6 +779,7 @@ class LlcpDecode(object):
         for d in range(1, 560):
             if d % NSHARDS != shard % NSHARDS:
                 continue
+            self.g.measure(480 <= d <= 500)  # the deepest aggregates still accepted are the most expensive inputs here
             for li, leaf in enumerate(leaves):
                 if li and (d + li) % 4:
                     continue
@@ -551,12 +792,16 @@ class LlcpDecode(object):
             if len(e) <= 4400:
                 self.check(e, want_depth=True)
                 R.count("llcp_nested")
+        self.g.measure(True)
+        for _, enc in valid:
+            self.check(enc)
         for d in (600 + shard, 1000 + shard, 4000 + shard, 16000 + shard):
             e = nest(b"\x00\x00", d)
             if len(e) <= 65535 * 2:
                 self.check(e, want_depth=True)
                 maxd = max(maxd, d)
                 R.count("llcp_nested")
+        self.g.measure(False)
         R.max("agf_depth_attempted", maxd)
         # random mutations (incl. wrapping into aggregates)
         encs = [e for _, e in valid]
@@ -569,6 +814,7 @@ class LlcpDecode(object):
             self.check(m, want_depth=(i % 7 == 0))
         self.st.flush()
         R.bulk(self.st.ex, self.st.ex)
+        self.g.report(R)
 
 
 # =================================================================================================
@@ -708,6 +954,7 @@ class T3Emu(object):
         self.emu = make_t3_emulation(wlog=self.wlog)
         self.st = Stats(R, "tt3-emulation")
         self.exhaustive = False
+        self.g = MainGuard.get()
 
     def check(self, cmd):
         st = self.st
@@ -716,14 +963,22 @@ class T3Emu(object):
             st.ex += 1
         else:
             self.R.case(("tt3-emulation", cmd))
+        g = self.g
+        g.begin()
         try:
             r = self.emu.process_command(bytearray(cmd))
+        except StepBound as e:
+            st.c["STEP-BUDGET"] += 1
+            step_violation(self.R, "tt3-emulation", e, {"pos": "tt3-emulation", "cmd": bytes(cmd)})
+            return
         except Exception as e:
             st.c["UNDOCUMENTED:" + type(e).__name__] += 1
             escape(self.R, "tt3-emulation", e, {"pos": "tt3-emulation", "cmd": bytes(cmd)},
                    "Type3TagEmulation.process_command(%s) raised %s (documented: response bytes or None)"
                    % (bytes(cmd)[:32].hex(), type(e).__name__))
             return
+        finally:
+            g.end("tt3-emulation")
         misframed = len(cmd) > 0 and cmd[0] != len(cmd)       # the LEN byte of a FeliCa frame counts itself
         if r is None:
             st.c["None"] += 1
@@ -812,7 +1067,9 @@ class T3Emu(object):
         R.count("tt3_exhaustive", self.st.ex)
         tpl = t3_templates()
         for k, (name, cmd) in enumerate(tpl):
+            self.g.measure(True)
             self.check(cmd)
+            self.g.measure(False)
             R.seen("tt3_templates", name)
             for j, m in enumerate(systematic_mutations(cmd, len_pos=0, flips_upto=48)):
                 if (k + j) % NSHARDS == shard % NSHARDS:
@@ -892,6 +1149,7 @@ class T3Emu(object):
         R.bulk(self.st.ex, self.st.ex)
         for key in ("malformed_judged", "write_callback_blocks"):
             R.count("tt3_" + key, self.st.c.get(key, 0))
+        self.g.report(R)
 
 
 # =================================================================================================
@@ -921,6 +1179,7 @@ class LlcActivate(object):
         self.L, self.R = L, R
         self.st = Stats(R, "llc-activate")
         self.exhaustive = False
+        self.g = MainGuard.get()
 
     def check(self, role, gb):
         st = self.st
@@ -931,13 +1190,25 @@ class LlcActivate(object):
             self.R.case(("llc-activate", role, gb))
         llc = self.L.LogicalLinkController()
         try:
-            r = llc.activate(fixed_gb_mac(role, gb))
+            mac = fixed_gb_mac(role, gb)
+        except (AttributeError, TypeError) as e:
+            raise HarnessAccess("nfc.dep.Initiator/Target(clf=None) with rwt/miu not constructible: %r" % (e,))
+        g = self.g
+        g.begin()
+        try:
+            r = llc.activate(mac)
+        except StepBound as e:
+            st.c["STEP-BUDGET"] += 1
+            step_violation(self.R, "llc-activate", e, {"pos": "llc-activate", "role": role, "gb": gb})
+            return
         except Exception as e:
             st.c["UNDOCUMENTED:" + type(e).__name__] += 1
             escape(self.R, "llc-activate", e, {"pos": "llc-activate", "role": role, "gb": gb},
                    "LogicalLinkController.activate() with general bytes %s raised %s (documented: returns bool)"
                    % (None if gb is None else bytes(gb)[:30].hex(), type(e).__name__))
             return
+        finally:
+            g.end("llc-activate")
         if r is True or r is False:
             st.c["ret:%s" % r] += 1
         else:
@@ -949,10 +1220,12 @@ class LlcActivate(object):
         R, shard = self.R, desc["shard"]
         lo, hi = desc["ex_first"]
         for role in "IT":
-            if shard == 0:
-                for gb in (None, b"", b"F", b"Ff", b"Ffm", b"Ffm\x01", b"Ffm\x01\x01", GB_GOOD, b"ffm" + GB_GOOD[3:],
-                           GB_GOOD[:3] + bytes(44), GB_GOOD + bytes(30)):
+            self.g.measure(True)
+            for gb in (None, b"", b"F", b"Ff", b"Ffm", b"Ffm\x01", b"Ffm\x01\x01", GB_GOOD, b"ffm" + GB_GOOD[3:],
+                       GB_GOOD[:3] + bytes(44), GB_GOOD + bytes(30)):
+                if shard == 0 or gb == GB_GOOD:
                     self.check(role, gb)
+            self.g.measure(False)
             for j, m in enumerate(systematic_mutations(GB_GOOD)):
                 if j % NSHARDS == shard % NSHARDS:
                     self.check(role, m)
@@ -974,6 +1247,7 @@ class LlcActivate(object):
             self.check("IT"[i & 1], random_mutation(rng, GB_GOOD))
         self.st.flush()
         R.bulk(self.st.ex, self.st.ex)
+        self.g.report(R)
 
 
 
@@ -1466,6 +1740,7 @@ DEP_MODES = [
     ("212F", 1, None, None), ("212F", 2, 3, None), ("acm-fallback", 0, None, None),
 ]
 WORK_I = [["x", 10, 1.0], ["x", 600, 1.0], ["x", 5, 1.0], ["x", 5, 1.0], ["x", 3, 0.5], ["d", True]]
+WORK_I_DSL = WORK_I[:-1] + [["d", False]]          # deactivate(release=False): the DSL_RES position instead of RLS_RES
 WORK_T = [["a", 1.0], ["x", None, 1.0], ["x", 5, 1.0], ["x", 600, 1.0], ["x", 5, 1.0], ["x", 2, 1.0], ["x", 5, 1.0],
           ["r", 2], ["x", 5, 1.0], ["x", 5, 1.0], ["x", 5, 1.0], ["x", 5, 1.0], ["d", b"\x01\x40"]]
 
@@ -1481,17 +1756,24 @@ class DepLive(object):
         self.Dev = script_device_class()
         self.hi = hostile_dep_ops(True)
         self.ht = hostile_dep_ops(False)
+        self.g = MainGuard.get()
 
     # ---- one case ------------------------------------------------------------------------------------------------
     def call(self, pos, case, fn, doc_none=True):
         """run one call of the stack under the oracle; returns (ok, value)"""
         R = self.R
         key = pos.replace("-", "_")
+        g = self.g
+        g.begin()
         try:
             v = fn()
         except self.nfc.clf.CommunicationError as e:
             R.count("outcome_%s_%s" % (key, type(e).__name__))
             R.seen("outcomes_" + key, type(e).__name__)
+            return False, None
+        except StepBound as e:
+            R.count("outcome_%s_STEP_BUDGET" % key)
+            step_violation(R, pos, e, case)
             return False, None
         except Bound as e:
             R.count("outcome_%s_BOUND" % key)
@@ -1503,6 +1785,8 @@ class DepLive(object):
             escape(R, pos, e, case, "%s raised %s: %s (documented: value or nfc.clf.CommunicationError)"
                    % (pos, type(e).__name__, str(e)[:100]))
             return False, None
+        finally:
+            g.end("dep-live-call")
         R.count("outcome_%s_%s" % (key, "None" if v is None else "value"))
         R.seen("outcomes_" + key, "None" if v is None else "value")
         return True, v
@@ -1547,6 +1831,8 @@ class DepLive(object):
         R.max("dep_frames_per_case", dev.frames)
         for lab, _ in peer.trace:
             R.seen("dep_initiator_positions", lab)
+            if lab in ("DSL", "RLS"):
+                R.count("dep_initiator_%s_res_positions" % lab.lower())
         return peer, dev
 
     def run_target(self, case, dry=False):
@@ -1611,9 +1897,11 @@ class DepLive(object):
 
         auto = {"op": "auto"}
         # ---------------- harness plays target against the real Initiator
-        for mode in DEP_MODES:
-            base = {"pos": "dep-initiator", "mode": list(mode), "work": WORK_I, "script": [auto] * 40}
+        for mi, mode in enumerate(DEP_MODES):
+            base = {"pos": "dep-initiator", "mode": list(mode), "work": WORK_I_DSL if mi % 2 else WORK_I, "script": [auto] * 40}
+            self.g.measure(True)
             peer, _ = self.run_initiator(base, dry=True)
+            self.g.measure(False)
             steps = [t for t in peer.trace if t[1] != 0]
             R.max("dep_initiator_steps_valid_run", len(steps))
             for p, (lab, nmut) in enumerate(peer.trace):
@@ -1640,7 +1928,9 @@ class DepLive(object):
         for li in (self.good_listen("106A"), self.good_listen("212F"), self.good_listen("424F", did=2, pp=0x22),
                    self.good_listen("106A", passive=False), self.good_listen("212F", did=1)):
             base = {"pos": "dep-target", "listen": li, "work": WORK_T, "script": [auto] * 40}
+            self.g.measure(True)
             peer, _ = self.run_target(base, dry=True)
+            self.g.measure(False)
             R.max("dep_target_steps_valid_run", len([t for t in peer.trace if t[1] != 0]))
             for p, (lab, nmut) in enumerate(peer.trace):
                 if nmut <= 0:
@@ -1681,14 +1971,15 @@ class DepLive(object):
                     script.append(rng.choice(self.hi if i & 1 else self.ht))
             script += [auto] * 10
             if i & 1:
-                self.run_initiator({"pos": "dep-initiator", "mode": list(rng.choice(DEP_MODES)), "work": WORK_I,
-                                    "script": script})
+                self.run_initiator({"pos": "dep-initiator", "mode": list(rng.choice(DEP_MODES)),
+                                    "work": rng.choice([WORK_I, WORK_I_DSL]), "script": script})
             else:
                 li = self.good_listen(rng.choice(["106A", "212F", "424F"]), did=rng.choice([0, 0, 4]),
                                       passive=rng.random() < 0.8, pp=rng.choice([0x02, 0x12, 0x22, 0x32]))
                 self.run_target({"pos": "dep-target", "listen": li, "work": WORK_T, "script": script})
             R.count("dep_live_random_walks")
         self.vclock.unpatch([self.nfc.dep, self.nfc.clf])
+        self.g.report(R)
 
 
 # =================================================================================================
@@ -1731,6 +2022,9 @@ def drain_thread_deaths(R, pos, case):
         name, e = THREAD_DEATHS.pop(0)
         n += 1
         R.count("excepthook_firings")
+        if isinstance(e, StepBound):
+            step_violation(R, pos, e, case)
+            continue
         R.violation("thread-died/%s/%s" % (pos, exc_sig(e)),
                     "thread %r of the stack died with an uncaught %s: %s" % (name, type(e).__name__, str(e)[:120]), case)
     return n
@@ -1825,6 +2119,13 @@ def snep_msg(version=0x10, code=0x02, length=None, body=b""):
 
 NDEF_SMALL = b"\xd1\x01\x04T\x02enX"          # one well-formed text record
 NDEF_EMPTY = b"\xd0\x00\x00"
+# a well-formed handover request (Hr 1.3, collision resolution record, one alternative carrier + its carrier record) and
+# the smallest well-formed handover select message
+HR_VALID = bytes.fromhex("910214487213910202637212345102076163010477696669005a1704046170706c69636174696f6e2f766e642e"
+                         "7766612e77736377696669100e0000")
+HS_VALID = bytes.fromhex("d10201487313")
+SNEP_CONTINUE = b"\x10\x80\x00\x00\x00\x00"
+SNEP_SUCCESS = b"\x10\x81\x00\x00\x00\x00"
 
 
 def ndef_big(n):
@@ -1924,6 +2225,12 @@ class HostileLLCP(object):
         self.sleep_left = None
         self.sent_kinds = collections.Counter()
         self.max_nest = 0
+        self.lb = None               # LineBudget of the thread that runs the link: the budget counts per link turn
+        self.max_lines = 0
+        self.notes = collections.Counter()
+        self.servers = []            # the started server threads of the stack (their listen threads)
+        self.dead_services = []
+        self.sent_frames = []        # what the hostile peer really sent (looked at only when a service disappeared)
 
     # ---- what the stack sent -------------------------------------------------------------------------------------
     def observe(self, data):
@@ -2021,6 +2328,12 @@ class HostileLLCP(object):
         self.calls += 1
         if self.calls > self.bound:
             raise Bound("more than %d link turns" % self.bound)
+        lb = self.lb
+        if lb is not None and lb.armed:
+            n = lb.lines()
+            if n > self.max_lines:
+                self.max_lines = n
+            lb.reset()
         self.observe(data)
         while True:
             if self.k >= len(self.script):
@@ -2053,7 +2366,37 @@ class HostileLLCP(object):
             self.k += 1
             if k == "silence":
                 return None
-            return self.enc(op)
+            if k == "check-services":
+                # the link loop is asking for the next frame, so the link controller has not terminated: every listen
+                # thread that was started must still be there (it only ends when accept() raises)
+                self.notes["service_checks"] += 1
+                for srv in self.servers:
+                    self.notes["service_listen_threads_checked"] += 1
+                    if not srv.is_alive() and srv.name not in self.dead_services:
+                        self.dead_services.append(srv.name)
+                continue
+            out = self.enc(op)
+            if len(self.sent_frames) < 600:
+                self.sent_frames.append(out)
+            return out
+
+    CONNECTION_MODE = ("CONNECT", "DISC", "CC", "DM", "FRMR", "I", "RR", "RNR")
+
+    def sent_other_than_connection_mode_to_service_sap(self):
+        """did the peer address a PDU that is not a connection-mode PDU (UI, SNL, PAX, reserved types, ...) to the SAP of
+        a server of the stack (4 = default SNEP server, 16..31 = services registered by name)?"""
+        for f in self.sent_frames:
+            try:
+                leaves = ref.flatten(ref.decode(bytes(f)))
+            except (ref.Reject, RecursionError):
+                leaves = []
+                if len(f) >= 2:
+                    leaves = [{"t": "?", "dsap": f[0] >> 2}]
+            for x in leaves:
+                d = x.get("dsap")
+                if x.get("t") not in self.CONNECTION_MODE and d is not None and (d == 4 or 16 <= d <= 31):
+                    return True
+        return False
 
 
 def scripted_llc_mac(role, hp, clock, gb=GB_GOOD, miu=251):
@@ -2116,8 +2459,15 @@ class LlcRun(object):
                 outcomes[name] = ("llcp.Error", e.errno)
             except nfc.snep.SnepError as e:
                 outcomes[name] = ("SnepError", e.errno)
+            except StepBound as e:
+                outcomes[name] = ("STEP-BUDGET", None)
+                escapes.append((name, e))
             except self.ndef.DecodeError as e:
-                outcomes[name] = ("ndef.DecodeError", str(e)[:40])
+                if name.startswith("ho-"):                           # the handover client documents no such outcome
+                    outcomes[name] = ("UNDOCUMENTED", "ndef.DecodeError")
+                    escapes.append((name, e))
+                else:
+                    outcomes[name] = ("ndef.DecodeError", str(e)[:40])
             except Exception as e:
                 if name == "snep-getrec" and raised_in_ndef(e):      # get_records is documented as
                     outcomes[name] = ("ndef-decoder-" + type(e).__name__, None)   # list(ndef.message_decoder(octets))
@@ -2232,12 +2582,36 @@ class LlcRun(object):
                         return cl.get_octets(NDEF_SMALL, timeout=0.05)
                     return cl.get_records([self.ndef.TextRecord("q")], timeout=0.05)
                 later.append(self.client(t, f, outcomes, escapes))
+            elif t in ("ho-recvrec", "ho-recvoct", "ho-sendrec"):
+                hc = nfc.handover.HandoverClient(llc)
+
+                def f(hc=hc, t=t):
+                    hc.connect()
+                    try:
+                        if t == "ho-sendrec":
+                            ok = hc.send_records(list(self.ndef.message_decoder(HR_VALID)))
+                        else:
+                            ok = hc.send_octets(HR_VALID)
+                        if t == "ho-recvoct":
+                            r = hc.recv_octets(timeout=0.05)
+                            kind = "octets" if isinstance(r, (bytes, bytearray)) else "None" if r is None else "other"
+                        else:
+                            r = hc.recv_records(timeout=0.05)
+                            kind = "records" if isinstance(r, list) else "None" if r is None else "other"
+                        if kind == "other":
+                            raise AssertionError("HandoverClient returned %r" % (r,))
+                        return (bool(ok), kind, len(r) if r is not None else None)
+                    finally:
+                        hc.close()
+                later.append(self.client(t, f, outcomes, escapes))
         return later
 
     def run_case(self, case):
         """one scenario; cfg['via'] = 'mac' (scripted MAC below the LLC, position llc-run) or 'connect' (the complete
-        ContactlessFrontend.connect(llcp=...) over real nfc.dep on a scripted Device, position connect-llcp)"""
-        nfc, L, R = self.nfc, self.L, self.R
+        ContactlessFrontend.connect(llcp=...) over real nfc.dep on a scripted Device, position connect-llcp).
+        llc.run() / clf.connect() run in a thread of their own (vf-run): a call that blocks or spins is decided by
+        hang_verdict / the line budget instead of ending in the shard's watchdog."""
+        R = self.R
         cfg = case["cfg"]
         via = cfg.get("via", "mac")
         pos = "llc-run" if via == "mac" else "connect-llcp"
@@ -2247,24 +2621,149 @@ class LlcRun(object):
         outcomes, escapes = {}, []
         R.count("n_" + pos.replace("-", "_"))
         R.case((pos, cfg, case["script"]))
-        returned = False
+        st = {"returned": False, "llc": None, "abort": None}
+        self.ncase = getattr(self, "ncase", 0) + 1
+        measure = self.ncase % 16 == 1 or (self.ncase % 4 == 0 and any(op.get("op") == "nest" and op.get("depth", 0) >= 400
+                                                                       for op in case["script"]))
+        hp.lb = RUN_LB
+
+        def core():
+            if measure:
+                RUN_LB.arm([threading.get_ident()], RUN_LINE_BUDGET)
+            try:
+                self.run_core(case, hp, pos, st, outcomes, escapes)
+            except AbortPart as e:
+                st["abort"] = e
+            finally:
+                if measure:
+                    hp.max_lines = max(hp.max_lines, RUN_LB.lines())
+        runner = threading.Thread(target=core, name="vf-run", daemon=True)
+        runner.start()
+        STARTED.remove(runner)
+        finished = self.supervise(runner, pos, case)
+        if measure:
+            RUN_LB.disarm()
+            R.max("lines_per_link_turn_" + pos.replace("-", "_"), hp.max_lines)
+            R.count("step_budget_measured_run_cases")
+            if hp.max_lines * 50 <= RUN_LINE_BUDGET:
+                R.count("step_budget_headroom_ok")
+            else:
+                R.inconc("step budget: %s needs %d lines between two link turns on this tree, the budget of %d lines is "
+                         "less than 50 times that" % (pos, hp.max_lines, RUN_LINE_BUDGET))
+        for name in hp.dead_services:
+            short = {"urn:nfc:sn:snep": "snep", "urn:nfc:sn:handover": "handover"}.get(name, "other")
+            cls = ("after-non-connection-mode-pdu-to-service-sap" if hp.sent_other_than_connection_mode_to_service_sap()
+                   else "only-connection-mode-pdus-sent-to-service-saps")
+            R.violation("service-gone/%s/listen-thread-ended/%s/%s" % (pos, short, cls),
+                        "%s: the listen thread of the %s server ended after hostile PDUs although the link controller was "
+                        "still running (it asked the peer for the next frame afterwards)" % (pos, name), case)
+        returned = st["returned"]
+        if finished and not returned and via == "mac" and st["llc"] is not None:
+            try:
+                st["llc"].terminate(reason="harness cleanup")
+            except BaseException:
+                pass
+        t_run = real_time.time()
+        threads = list(STARTED)
+        left = join_all(threads, 6.0) if finished else [t for t in threads if t.is_alive()]
+        R.count("threads_started", len(threads))
+        R.count("threads_finished", len(threads) - len(left))
+        R.max("join_ms", int((real_time.time() - t_run) * 1000))
+        if left and returned:
+            verdict, where = hang_verdict(left)
+            if verdict == "hang":
+                R.violation("hang/%s/thread-blocked-after-link-end/%s" % (pos, where),
+                            "after hostile input and the end of the link, thread(s) %s sit in an untimed wait at %s with no "
+                            "progress over three samples" % ([t.name for t in left], where), case)
+            elif verdict == "busy":
+                RUN_LB.arm([t.ident for t in left], RUN_LINE_BUDGET)   # a thread that spins in nfc code runs into its budget
+                still = join_all(left, 20.0)
+                RUN_LB.disarm()
+                if still:
+                    R.inconc("%s: threads %s still busy after the call returned" % (pos, [t.name for t in still]))
+        for name, e in escapes:
+            p2 = ("snep-client" if name.startswith("snep") else "handover-client" if name.startswith("ho-") else "llc-socket")
+            if isinstance(e, StepBound):
+                try:
+                    step_violation(R, p2, e, case)
+                except AbortPart as e2:
+                    st["abort"] = e2
+            else:
+                escape(R, p2, e, case, "%s in a client thread raised %s: %s" % (name, type(e).__name__, str(e)[:100]))
+        for name, (kind, val) in outcomes.items():
+            R.count("outcome_%s_%s" % (name.replace("-", "_"), kind))
+            if name.startswith("snep"):
+                R.count("n_snep_client")
+            elif name.startswith("ho-"):
+                R.count("n_handover_client")
+                R.seen("outcomes_handover_client", kind)
+        try:
+            drain_thread_deaths(R, pos, case)
+        except AbortPart as e2:
+            st["abort"] = e2
+        for k, v in hp.seen.items():
+            R.count("stack_sent_" + k, v)
+        for k, v in hp.sent_kinds.items():
+            R.count("peer_sent_" + k, v)
+        for k, v in hp.notes.items():
+            R.count(k, v)
+        R.max("agf_depth_in_run_loop", hp.max_nest)
+        if st["abort"] is not None and "replay" not in case:
+            raise st["abort"]
+        return hp
+
+    def supervise(self, runner, pos, case):
+        """wait for the thread that runs llc.run() / clf.connect(); -> True when it ended.  Wall-clock only decides
+        when to look: the verdicts are structural (untimed wait, nobody progresses) or a logical step count"""
+        R = self.R
+        runner.join(RUN_WALL)
+        if not runner.is_alive():
+            return True
+        R.count("run_thread_slow")
+        others = [t for t in STARTED if t.is_alive()]
+        verdict, where = hang_verdict([runner] + others)
+        if verdict == "hang":
+            R.violation("hang/%s/call-blocked/%s" % (pos, where),
+                        "%s does not return: its thread and every thread it started sit in waits with no progress over "
+                        "three samples, an untimed one at %s" % (pos, where), case)
+            return False
+        RUN_LB.arm([runner.ident] + [t.ident for t in others], RUN_LINE_BUDGET)
+        runner.join(4 * RUN_WALL)
+        RUN_LB.disarm()
+        if runner.is_alive():
+            R.inconc("%s: still running after %d s, neither blocked nor over its step budget" % (pos, 5 * RUN_WALL))
+            return False
+        return True
+
+    def run_core(self, case, hp, pos, st, outcomes, escapes):
+        nfc, L, R = self.nfc, self.L, self.R
+        cfg = case["cfg"]
+        via = cfg.get("via", "mac")
         box = {"running": False}
         try:
             if via == "mac":
                 clock = self.vclock.patch([L])
                 llc = L.LogicalLinkController(miu=cfg.get("miu", 2175), lto=cfg.get("lto", 500), agf=cfg.get("agf", True))
-                mac = scripted_llc_mac(cfg.get("role", "T"), hp, clock, gb=bytes(cfg.get("gb", GB_GOOD)))
+                try:
+                    mac = scripted_llc_mac(cfg.get("role", "T"), hp, clock, gb=bytes(cfg.get("gb", GB_GOOD)))
+                except (AttributeError, TypeError) as e:
+                    raise HarnessBug("nfc.dep.Initiator/Target(clf=None) with rwt/miu not constructible: %r" % (e,))
                 servers = self.make_services(llc, cfg)
+                st["llc"] = llc
                 if not llc.activate(mac):
                     R.count("llc_run_not_activated")
-                    return hp
+                    st["returned"] = True
+                    return
+                R.count("llc_run_activated")
                 for srv in servers:
                     srv.start()
+                hp.servers = list(servers)
                 for th in self.make_threads(llc, cfg, outcomes, escapes):
                     th.start()
                 llc.run()
-                returned = True
+                st["returned"] = True
                 R.count("llc_run_returned")
+                R.count("llc_run_returned_mac")
             else:
                 clock = self.vclock.patch([L, nfc.dep, nfc.clf])
                 role = cfg.get("role", "T")
@@ -2309,6 +2808,7 @@ class LlcRun(object):
                     box["running"] = True
                     for srv in keep["servers"]:
                         srv.start()
+                    hp.servers = list(keep["servers"])
                     for th in self.make_threads(llc, cfg, outcomes, escapes):
                         th.start()
                     return True
@@ -2321,10 +2821,13 @@ class LlcRun(object):
                         "agf": cfg.get("agf", True), "on-startup": on_startup, "on-connect": on_connect, "on-release": on_release,
                         "brs": cfg.get("brs", 0), "acm": bool(cfg.get("acm"))}
                 r = clf.connect(llcp=opts, terminate=lambda: bool(attempts) and not box["running"])
-                returned = True
+                st["returned"] = True
                 R.count("connect_llcp_result_%s" % ("released" if box.get("released") else repr(r)))
                 if box.get("released"):
                     R.count("llc_run_returned")
+                    R.count("llc_run_returned_connect")
+        except StepBound as e:
+            step_violation(R, pos, e, case)
         except Bound as e:
             R.violation("hang/%s/no-return-within-turn-bound" % pos, "%s did not return: %s" % (pos, e), case)
         except HarnessBug as e:
@@ -2334,39 +2837,6 @@ class LlcRun(object):
         except Exception as e:
             p2 = pos if via == "mac" else (pos + ("-run" if box["running"] else "-activate"))
             escape(R, p2, e, case, "%s raised %s: %s (documented: returns normally)" % (p2, type(e).__name__, str(e)[:100]))
-        if not returned and via == "mac":
-            try:
-                llc.terminate(reason="harness cleanup")
-            except BaseException:
-                pass
-        t_run = real_time.time()
-        threads = list(STARTED)
-        left = join_all(threads, 6.0)
-        R.count("threads_started", len(threads))
-        R.count("threads_finished", len(threads) - len(left))
-        R.max("join_ms", int((real_time.time() - t_run) * 1000))
-        if left and returned:
-            verdict, where = hang_verdict(left)
-            if verdict == "hang":
-                R.violation("hang/%s/thread-blocked-after-link-end/%s" % (pos, where),
-                            "after hostile input and the end of the link, thread(s) %s sit in an untimed wait at %s with no "
-                            "progress over three samples" % ([t.name for t in left], where), case)
-            elif verdict == "busy":
-                R.inconc("%s: threads %s still busy 6 s after the call returned" % (pos, [t.name for t in left]))
-        for name, e in escapes:
-            p2 = "snep-client" if name.startswith("snep") else "llc-socket"
-            escape(R, p2, e, case, "%s in a client thread raised %s: %s" % (name, type(e).__name__, str(e)[:100]))
-        for name, (kind, val) in outcomes.items():
-            R.count("outcome_%s_%s" % (name.replace("-", "_"), kind))
-            if name.startswith("snep"):
-                R.count("n_snep_client")
-        drain_thread_deaths(R, pos, case)
-        for k, v in hp.seen.items():
-            R.count("stack_sent_" + k, v)
-        for k, v in hp.sent_kinds.items():
-            R.count("peer_sent_" + k, v)
-        R.max("agf_depth_in_run_loop", hp.max_nest)
-        return hp
 
     # ---- scripts ---------------------------------------------------------------------------------------------------
     SAPS = [0, 1, 2, 4, 15, 16, 17, 20, 31, 32, 33, 34, 35, 36, 40, 63]
@@ -2375,7 +2845,7 @@ class LlcRun(object):
         sap = lambda: rng.choice(self.SAPS + [rng.randrange(64)])
         names = [b"urn:nfc:sn:snep", b"urn:nfc:sn:handover", b"urn:nfc:xsn:vf.test:get", b"urn:nfc:sn:sdp", b"", b"\x00",
                  b"x" * 255, b"urn:nfc:sn:\xff\xfe", b"urn:nfc:sn:vf-remote", b"URN:NFC:SN:SNEP", bytes(range(200))]
-        k = rng.randrange(16)
+        k = rng.randrange(17)
         if k == 0:
             return {"op": "connect", "dsap": sap(), "ssap": sap(), "miu": rng.choice([128, 129, 248, 2175, 2176, 2303]),
                     "rw": rng.choice([0, 1, 2, 15]), "sn": rng.choice([None, None] + names), "explicit": rng.random() < 0.3}
@@ -2418,14 +2888,44 @@ class LlcRun(object):
                             for _ in range(rng.choice([1, 2]))]}
         if k == 14:
             return {"op": "pdu", "pdu": {"t": rng.choice(["DISC", "SYMM"]), "dsap": rng.choice([0, 0, sap()]), "ssap": rng.choice([0, sap()])}}
+        if k == 15:
+            # parameter TLVs whose length octet is larger (or smaller) than the fixed size of the parameter, with the
+            # announced value octets really present, in every PDU type that carries parameters
+            hdr = rng.choice([b"\x00\x40", bytes([sap() << 2 | 1, 0x20]), bytes([sap() << 2 | 1, 0x80 | 4]), b"\x06\x41",
+                              bytes([4 << 2 | 1, 0x21]), bytes([32 << 2 | 1, 0x80 | 35])])
+            tlvs = b""
+            for _ in range(rng.choice([1, 1, 2, 3])):
+                t = rng.choice([1, 2, 3, 4, 5, 6, 7, 8, 9, 10, 11, 12])
+                fixed = {1: 1, 2: 2, 3: 2, 4: 1, 5: 1, 7: 1, 9: 2}.get(t, 3)
+                ln = max(0, fixed + rng.choice([1, 1, 2, -1, 0, 30]))
+                tlvs += bytes([t, ln]) + rng.randbytes(ln)
+            return {"op": "raw", "data": hdr + tlvs}
         return {"op": "symm"}
 
     def gen_case(self, rng, i):
         """one scenario: (cfg, script)"""
         symm, nap = {"op": "symm"}, {"op": "sleep", "n": 3}
         role = rng.choice("IT")
-        kind = i % 8
+        kind = i % 10
         cfg = {"role": role, "miu": rng.choice([128, 248, 2175]), "agf": rng.random() < 0.8}
+        r = rng.random()
+        if r < 0.25:      # LLCP parameters of the peer: every version the stack may negotiate down to, LSC / OPT values,
+            ver = rng.choice([0x10, 0x11, 0x12, 0x13, 0x14, 0x20, 0x0F, 0x00, 0xFF])     # missing and extra parameters
+            tlvs = [bytes([1, 1, ver])]
+            if rng.random() < 0.8:
+                tlvs.append(bytes([2, 2]) + struct.pack(">H", rng.choice([0, 120, 0x7FF, 0x87FF, 0xFFFF])))
+            if rng.random() < 0.8:
+                tlvs.append(bytes([3, 2]) + struct.pack(">H", rng.choice([0x0001, 0x0013, 0xFFFF, 0x0000])))
+            if rng.random() < 0.8:
+                tlvs.append(bytes([4, 1, rng.choice([0, 1, 10, 50, 255])]))
+            if rng.random() < 0.8:
+                tlvs.append(bytes([7, 1, rng.choice([0, 1, 2, 3, 4, 7, 0xFF])]))
+            rng.shuffle(tlvs)
+            cfg["gb"] = b"Ffm" + b"".join(tlvs)
+            cfg["gbkind"] = "parameters"
+        elif r < 0.32:    # mutated general bytes in front of a live script (most end the case at activation)
+            cfg["gb"] = random_mutation(rng, GB_GOOD)
+            cfg["gbkind"] = "mutated"
         script = [symm]
         if kind == 0:       # hostile SNEP client against the default server (and the GET server)
             get = rng.random() < 0.4
@@ -2536,6 +3036,23 @@ class LlcRun(object):
                                                                   494, 496, 498, 500, 510, 530, 543]),
                                "inner": inner, "comb": rng.random() < 0.3})
                 script.append(nap)
+        elif kind == 8:     # the real handover client of the stack against a hostile handover server
+            t = rng.choice(["ho-recvrec", "ho-recvrec", "ho-recvoct", "ho-sendrec"])
+            cfg["threads"] = [t]
+            script += [{"op": "await", "what": "CONNECT"},
+                       rng.choice([{"op": "cc", "miu": rng.choice([128, 248, 2175]), "rw": rng.choice([1, 2, 15])}] * 6 +
+                                  [{"op": "dm", "reason": rng.choice([2, 3, 0x10])}, {"op": "cc", "rw": 0}])]
+            script += [{"op": "await", "what": "I", "max": 150}]
+            for _ in range(rng.choice([1, 1, 1, 2])):
+                nd = rng.choice(self.ndefs + [HS_VALID, HS_VALID, HR_VALID])
+                if rng.random() < 0.3:
+                    nd = random_mutation(rng, nd)
+                cut = rng.choice([len(nd), len(nd), 1, 2, 3, max(1, len(nd) // 2), max(1, len(nd) - 1)])
+                for f in ([nd[:cut], nd[cut:]] if cut < len(nd) else [nd]):
+                    script += [{"op": "i", "data": f}, nap, nap]
+            script += [{"op": "rr"}, nap, {"op": "sleep", "n": 12}]
+        elif kind == 9:     # one header-only PDU of a chosen type at a service access point in a chosen state
+            return self.grid_case(rng.randrange(16), rng.choice(self.SAP_STATES), rng)
         else:               # listening echo service of the stack: connects, backlog, connect by odd names
             cfg["services"] = ["snep", "handover"]
             cfg["threads"] = ["dlc-listen", "ldl"]
@@ -2556,14 +3073,86 @@ class LlcRun(object):
                 else:
                     script.append(nap)
         script += [nap]
+        if cfg.get("services"):
+            script += [{"op": "check-services"}, nap]
         script.append(rng.choice([{"op": "silence"}, {"op": "silence"}, {"op": "pdu", "pdu": {"t": "DISC", "dsap": 0, "ssap": 0}},
                                   {"op": "raw", "data": b"\x01"}, {"op": "raw", "data": b""}, {"op": "raw", "data": b"\x00\x40\x01"}]))
         return {"pos": "llc-run", "cfg": cfg, "script": script}
 
+    # the states a service access point of the stack can be in when a PDU arrives, as (name, dsap, ssap)
+    SAP_STATES = [("llc", 0, 0), ("sdp", 1, 1), ("unbound", 20, 41), ("snep-listen", 4, 41), ("ldl-bound", 33, 41),
+                  ("raw-bound", 36, 41), ("dlc-listen", 34, 41), ("dlc-connected", 34, 40), ("dlc-connecting", 32, 35),
+                  ("dlc-connected-other-peer-sap", 34, 42)]
+
+    def grid_case(self, ptype, state, rng=None):
+        """a PDU that consists of nothing but its header (every PDU type, also the reserved ones) arrives in the middle
+        of a conversation at a service access point in a given state"""
+        symm, nap = {"op": "symm"}, {"op": "sleep", "n": 3}
+        name, dsap, ssap = state
+        hdr = bytes([(dsap << 2) | (ptype >> 2), ((ptype & 3) << 6) | ssap])
+        cfg = {"role": "T" if (ptype + dsap) % 2 else "I", "miu": 2175, "agf": True, "services": ["snep", "handover"],
+               "threads": ["ldl", "raw", "dlc-listen", "dlc-client"], "grid": [ptype, name]}
+        script = [symm, {"op": "connect", "dsap": 34, "ssap": 40, "miu": 300, "rw": 2}, {"op": "await", "what": "CC", "max": 100},
+                  {"op": "await", "what": "CONNECT", "max": 100},       # the stack's dlc-client -> SAP 35 stays connecting
+                  {"op": "raw", "data": hdr}, nap,
+                  {"op": "i", "conn": 0, "cut": 34, "hp": 40, "data": b"after"}, nap,
+                  {"op": "raw", "data": b"\x00\x80" + struct.pack(">H", len(hdr)) + hdr + b"\x00\x02\x00\x00"}, nap,
+                  {"op": "cc", "miu": 128, "rw": 1}, nap, {"op": "raw", "data": hdr}, nap, {"op": "rr"}, nap,
+                  {"op": "check-services"}, nap, {"op": "silence"}]
+        return {"pos": "llc-run", "cfg": cfg, "script": script}
+
+    WAIT_POINTS = ["snep-put-continue", "snep-put-response", "snep-get-response", "snep-get-more", "ho-recvrec", "ho-recvoct"]
+
+    def wait_point_case(self, point, n):
+        """a client of the stack waits for the peer's answer and gets an information field of n = 0..7 octets (a prefix
+        of / one octet more than the answer that would be right there), then the rest or nothing"""
+        symm, nap = {"op": "symm"}, {"op": "sleep", "n": 3}
+        cfg = {"role": "IT"[n & 1], "miu": 2175, "agf": True, "wait_point": [point, n]}
+        script = [symm, {"op": "await", "what": "CONNECT"}, {"op": "cc", "miu": 128, "rw": 2}, {"op": "await", "what": "I", "max": 150}]
+        big = snep_msg(0x10, 0x81, None, ndef_big(20))
+        if point == "snep-put-continue":
+            cfg["threads"], cfg["bigput"] = ["snep-put"], True
+            script += [{"op": "i", "data": (SNEP_CONTINUE + b"\x00")[:n]}, nap, {"op": "rr"}, nap, {"op": "rr"}, nap,
+                       {"op": "rr"}, nap, {"op": "rr"}, nap, {"op": "i", "data": SNEP_SUCCESS}, nap]
+        elif point == "snep-put-response":
+            cfg["threads"], cfg["bigput"] = ["snep-put"], False
+            script += [{"op": "i", "data": (SNEP_SUCCESS + b"\x00")[:n]}, nap]
+        elif point == "snep-get-response":
+            cfg["threads"] = ["snep-get" if n & 1 else "snep-getrec"]
+            script += [{"op": "i", "data": big[:n]}, nap, nap, {"op": "i", "data": big[n:]}, nap]
+        elif point == "snep-get-more":
+            cfg["threads"] = ["snep-getrec" if n & 1 else "snep-get"]
+            script += [{"op": "i", "data": big[:8]}, nap, {"op": "await", "what": "I", "max": 100},
+                       {"op": "i", "data": big[8:8 + n]}, nap, nap, {"op": "i", "data": big[8 + n:]}, nap]
+        else:
+            cfg["threads"] = [point]
+            msg = HS_VALID + b"\x00"
+            script += [{"op": "i", "data": msg[:n]}, nap, nap, {"op": "i", "data": HS_VALID[n:]}, nap]
+        script += [{"op": "rr"}, nap, {"op": "sleep", "n": 12}, {"op": "silence"}]
+        return {"pos": "llc-run", "cfg": cfg, "script": script}
+
     def run(self, desc, rng):
+        shard, R = desc["shard"], self.R
+        k = 0
+        for point in self.WAIT_POINTS:                 # every wait point x every length: once per run (all shards together)
+            for n in range(8):
+                k += 1
+                if k % NSHARDS == shard % NSHARDS:
+                    self.run_case(self.wait_point_case(point, n))
+                    R.count("wait_point_cases")
+                    R.seen("wait_points", "%s:%d" % (point, n))
+        for ptype in range(16):                        # PDU type x SAP state grid of header-only PDUs: likewise
+            for state in self.SAP_STATES:
+                k += 1
+                if k % NSHARDS == shard % NSHARDS and (desc["ex_len"] >= 3 or (k // NSHARDS + int(desc.get("seed", 0))) % 2 == 0):
+                    self.run_case(self.grid_case(ptype, state))
+                    R.count("grid_header_only_cases")
+                    R.seen("grid_header_only", "%d:%s" % (ptype, state[0]))
         for i in range(desc["run_cases"]):
             case = self.gen_case(rng, i + desc["shard"])
             self.run_case(case)
+            if case["cfg"].get("gbkind"):
+                R.count("llc_run_gb_" + case["cfg"]["gbkind"])
             if i < 1:
                 self.R.sample({"llc_run_script": case["script"][:6]})
         self.vclock.unpatch([self.L])
@@ -2642,6 +3231,7 @@ class Threaded(object):
                    % (name, type(e).__name__, str(e)[:100]))
         if joined and not tp.run_exc:
             R.count("llc_run_returned", 2)
+            R.count("llc_run_returned_threaded", 2)
         threads = [t for t in STARTED if t not in (tp.ta, tp.tb)]
         left = join_all(threads, 6.0)
         R.count("threads_started", len(threads) + 2)
@@ -2798,10 +3388,78 @@ class Threaded(object):
         th.start()
         th.join(5.0)
         R.count("%s_responses_seen" % pos.replace("-", "_"), len([g for g in got if isinstance(g, (bytes, bytearray))]))
+        if not th.is_alive():
+            self.continuity(tp, pos, case, servers)
         for g in got:
             if isinstance(g, (bytes, bytearray)) and len(g) >= 2 and pos == "snep-server":
                 R.seen("snep_server_response_codes", "%02x" % g[1])
         self.finish(tp, pos, case)
+
+    def continuity(self, tp, pos, case, servers):
+        """after the hostile fragments the service must still be there: its listen thread lives as long as the link
+        controller has not terminated, and a fresh connection with a well-formed request is served.  Verdicts only
+        on structural facts (listen thread ended / CONNECT refused with 'no service' although the link controller never
+        terminated); a request that merely stays unanswered in real time is counted, not judged."""
+        nfc, R = self.nfc, self.R
+        key = pos.replace("-", "_")
+        service = case["service"]
+        srv = servers[{"urn:nfc:sn:snep": 0, "urn:nfc:xsn:vf.test:get": 1, "urn:nfc:sn:handover": 2}[service]]
+        out = {}
+
+        def probe():
+            try:
+                if service == "urn:nfc:sn:handover":
+                    hc = nfc.handover.HandoverClient(tp.a)
+                    hc.connect()
+                    try:
+                        hc.send_octets(HR_VALID)
+                        r = hc.recv_octets(timeout=1.0)
+                    finally:
+                        hc.close()
+                    out["r"] = "served" if r and bytes(r)[3:5] == b"Hs" else "unserved"
+                elif service == "urn:nfc:sn:snep":
+                    out["r"] = "served" if nfc.snep.SnepClient(tp.a).put_octets(NDEF_SMALL, timeout=1.0) is True else "unserved"
+                else:
+                    cl = nfc.snep.SnepClient(tp.a, 4000)
+                    cl.connect(service)
+                    try:
+                        out["r"] = "served" if cl.get_octets(NDEF_SMALL, timeout=1.0) else "unserved"
+                    finally:
+                        cl.close()
+            except nfc.llcp.ConnectRefused as e:
+                out["r"] = "refused"
+                out["reason"] = getattr(e, "reason", None)
+            except (nfc.llcp.Error, nfc.snep.SnepError) as e:
+                out["r"] = "error:" + type(e).__name__
+            except Exception as e:
+                out["r"] = "exception"
+                out["e"] = e
+        th = threading.Thread(target=probe, name="vf-continuity", daemon=True)
+        th.start()
+        th.join(4.0)
+        r = out.get("r", "pending")
+        listen_alive = srv.is_alive()
+        terminated = getattr(tp.b, "terminated", None)          # read AFTER the observations it qualifies
+        link_up = terminated is False and tp.tb.is_alive() and not tp.pipe.broken
+        R.count("continuity_probes")
+        R.count("continuity_%s_%s" % (key, r.split(":")[0]))
+        if r == "served":
+            R.count("continuity_served")
+        if terminated is None:
+            R.count("continuity_unjudged_no_terminated_attribute")
+            return
+        if not listen_alive and link_up:
+            R.violation("service-gone/%s/listen-thread-ended" % pos,
+                        "after the hostile fragments the listen thread of %s is gone although the link controller has not "
+                        "terminated (fresh valid request: %s)" % (service, r), case)
+        elif r == "refused" and out.get("reason") == 2 and link_up:
+            R.violation("service-gone/%s/fresh-connection-refused-no-service" % pos,
+                        "after the hostile fragments a fresh CONNECT to %s is answered with DM reason 02 (no service) although "
+                        "the link controller has not terminated" % service, case)
+        elif r == "exception":
+            escape(R, pos + "-continuity", out["e"], case)
+        elif r != "served":
+            R.count("continuity_not_served_unjudged")
 
     # ---- the real SNEP client against a hostile server socket --------------------------------------------------------
     def run_client(self, case):
@@ -2811,16 +3469,18 @@ class Threaded(object):
         nfc, R = self.nfc, self.R
         del STARTED[:]
         del THREAD_DEATHS[:]
+        ho = case["call"].startswith("ho-")
+        pos = "handover-client" if ho else "snep-client"
         if first:
-            R.count("n_snep_client")
-            R.case(("snep-client", case["call"], case["frags"], case.get("first")))
+            R.count("n_" + pos.replace("-", "_"))
+            R.case((pos, case["call"], case["frags"], case.get("first")))
         box = {}
 
         def before(tp):
             so = nfc.llcp.Socket(tp.b, nfc.llcp.DATA_LINK_CONNECTION)
             so.setsockopt(nfc.llcp.SO_RCVMIU, 2175)
             so.setsockopt(nfc.llcp.SO_RCVBUF, 4)
-            so.bind("urn:nfc:sn:snep")
+            so.bind("urn:nfc:sn:handover" if ho else "urn:nfc:sn:snep")
             so.listen(1)
             box["srv"] = so
         tp = self.make_pair(case, before)
@@ -2855,9 +3515,32 @@ class Threaded(object):
             tp.join(2.0)
             if not last:
                 return "retry"
-            R.inconc("snep-client: link was not established " + self.diag(tp))
+            R.inconc(pos + ": link was not established " + self.diag(tp))
             return
         out = {}
+
+        def work_ho():
+            hc = nfc.handover.HandoverClient(tp.a)
+            try:
+                hc.connect()
+                try:
+                    if case["call"] == "ho-sendrec":
+                        hc.send_records(list(self.ndef.message_decoder(HR_VALID)))
+                    else:
+                        hc.send_octets(HR_VALID)
+                    if case["call"] == "ho-recvoct":
+                        r = hc.recv_octets(timeout=0.15)
+                        ok = r is None or isinstance(r, (bytes, bytearray))
+                    else:
+                        r = hc.recv_records(timeout=0.15)
+                        ok = r is None or isinstance(r, list)
+                    out["r"] = ("value" if ok else "UNDOCUMENTED", r if ok else AssertionError("returned %r" % (r,)))
+                finally:
+                    hc.close()
+            except nfc.llcp.Error as e:
+                out["r"] = ("llcp.Error", e.errno)
+            except Exception as e:             # the handover client documents a record list / octets / nfc.llcp.Error
+                out["r"] = ("UNDOCUMENTED", e)
 
         def work():
             cl = nfc.snep.SnepClient(tp.a, max_ndef_msg_recv_size=1024)
@@ -2879,16 +3562,16 @@ class Threaded(object):
                     out["r"] = ("ndef-decoder-" + type(e).__name__, e)
                 else:
                     out["r"] = ("UNDOCUMENTED", e)
-        th = threading.Thread(target=work, name="vf-snep-client", daemon=True)
+        th = threading.Thread(target=work_ho if ho else work, name="vf-" + pos, daemon=True)
         th.start()
         th.join(5.0)
         kind, val = out.get("r", ("pending", None))
-        R.count("outcome_snep_client_%s_%s" % (case["call"], kind))
-        R.seen("outcomes_snep_client", kind)
+        R.count("outcome_%s_%s_%s" % (pos.replace("-", "_"), case["call"].replace("-", "_"), kind))
+        R.seen("outcomes_" + pos.replace("-", "_"), kind)
         if kind == "UNDOCUMENTED":
-            escape(R, "snep-client", val, case, "SnepClient.%s raised %s: %s (documented: result, SnepError or nfc.llcp.Error)"
-                   % (case["call"], type(val).__name__, str(val)[:100]))
-        self.finish(tp, "snep-client", case)      # a call still pending is judged after the link has ended
+            escape(R, pos, val, case, "%s %s raised %s: %s (documented: result, %snfc.llcp.Error)"
+                   % (pos, case["call"], type(val).__name__, str(val)[:100], "" if ho else "SnepError or "))
+        self.finish(tp, pos, case)      # a call still pending is judged after the link has ended
 
     # ---- workload --------------------------------------------------------------------------------------------------
     def run(self, desc, rng):
@@ -2916,7 +3599,7 @@ class Threaded(object):
                                  "end": rng.choice(["orderly", "break", "break", "break"]),
                                  "after": rng.choice([None, snep_msg(0x10, 0x00, 0), snep_msg(0x10, 0x7F, 0), b"", b"\x10\x00", snep_msg(0x20, 0x00, 0)])})
             elif k == 2:
-                nd = rng.choice(self.ndefs)
+                nd = rng.choice(self.ndefs + [HR_VALID] * 12)
                 if rng.random() < 0.3:
                     nd = random_mutation(rng, nd)
                 cut = rng.choice([len(nd), len(nd), 1, 3, max(1, len(nd) // 2)])
@@ -2925,6 +3608,14 @@ class Threaded(object):
                     frags = frags + [rng.choice(self.ndefs)]
                 self.run_server({"pos": "handover-server", "service": "urn:nfc:sn:handover", "frags": frags,
                                  "rcvmiu": rng.choice([128, 2175]), "rw": rng.choice([1, 2, 15]), "after": None})
+            elif (i // 4) % 3 == 2:      # the real handover client against a hostile handover server socket
+                call = rng.choice(["ho-recvrec", "ho-recvrec", "ho-recvoct", "ho-sendrec"])
+                nd = rng.choice(self.ndefs + [HS_VALID] * 4)
+                if rng.random() < 0.3:
+                    nd = random_mutation(rng, nd)
+                cut = rng.choice([len(nd), len(nd), 1, 2, 3, max(1, len(nd) // 2), max(1, len(nd) - 1)])
+                frags = [nd[:cut], nd[cut:]] if cut < len(nd) else [nd]
+                self.run_client({"pos": "handover-client", "call": call, "frags": frags, "first": None})
             else:
                 call = rng.choice(["put", "put", "get", "getrec"])
                 size = rng.choice([10, 10, 700])
@@ -2932,9 +3623,9 @@ class Threaded(object):
                 if rng.random() < 0.15:
                     frags = [random_mutation(rng, f) for f in frags]
                 first = None
-                if call == "put" and size > 128:
-                    first = rng.choice([snep_msg(0x10, 0x80, 0), snep_msg(0x10, 0x80, 0), snep_msg(0x10, 0xFF, 0), b"", b"\x10\x80",
-                                        snep_msg(0x10, 0x81, 0)])
+                if call == "put" and size > 128:     # the answer to the first fragment: every length 0..7 and other codes
+                    first = rng.choice([(SNEP_CONTINUE + b"\x00")[:n] for n in range(8)] + [SNEP_CONTINUE] * 3 +
+                                       [snep_msg(0x10, 0xFF, 0), SNEP_SUCCESS, snep_msg(0x20, 0x80, 0)])
                 self.run_client({"pos": "snep-client", "call": call, "size": size, "frags": frags, "first": first,
                                  "llc": {"miu_b": 128 if size > 128 else 2175}})
 
@@ -2989,15 +3680,24 @@ class Connects(object):
             return True
         R.count("n_connect_card")
         R.case(("connect-card", case["first"], case["script"]))
+        g = MainGuard.get()
+        self.ncard = getattr(self, "ncard", 0) + 1
+        g.measure(self.ncard % 16 == 1)
+        g.begin()
         try:
             r = clf.connect(card={"on-startup": on_startup, "on-connect": on_connect, "on-release": on_release},
                             terminate=lambda: dev.calls > len(script) + 20)
             R.count("connect_card_result_%s" % ("released" if seen.get("released") else repr(r)))
+        except StepBound as e:
+            step_violation(R, "connect-card", e, case)
         except Bound as e:
             R.violation("hang/connect-card/no-return-within-frame-bound", "connect(card=) did not return: %s" % e, case)
         except Exception as e:
             escape(R, "connect-card", e, case, "ContactlessFrontend.connect(card=...) raised %s: %s (documented: returns "
                    "normally)" % (type(e).__name__, str(e)[:80]))
+        finally:
+            g.end("connect-card")
+            g.measure(False)
         R.count("connect_card_commands", dev.frames)
         calls = seen.get("wlog") or []
         R.count("connect_card_write_callback_blocks", len(calls))
@@ -3040,11 +3740,12 @@ class Connects(object):
                 first = good_first
             self.run_card({"pos": "connect-card", "first": first, "script": script})
         self.vclock.unpatch([nfc.clf])
+        MainGuard.get().report(self.R)
         # ---- peer to peer
         gbs = systematic_mutations(GB_GOOD)
         for i in range(desc["llcpconn_cases"]):
             case = self.lr.gen_case(rng, i + shard)
-            if i % 8 == 2:
+            if i % 10 == 2:
                 case["cfg"].pop("threads", None)
             case["pos"] = "connect-llcp"
             case["cfg"].update(via="connect", brty=rng.choice(["106A", "212F", "424F"]), brs=rng.choice([0, 1, 2]))
@@ -3062,7 +3763,12 @@ def run(desc, R, rng):
     parts = desc.get("parts") or list(PARTS)
     for part in parts:
         t1 = real_time.time()
-        PARTS[part](desc, R, rng)
+        try:
+            PARTS[part](desc, R, rng)
+        except HarnessAccess as e:
+            R.inconc("part %s: %s" % (part, e))
+        except AbortPart:
+            MainGuard.get().measure(False)
         R.max("wall_ms_" + part.replace("-", "_"), int((real_time.time() - t1) * 1000))
     R.exhaustive = False
 
@@ -3080,6 +3786,13 @@ PARTS = collections.OrderedDict([
 
 
 def replay(case, R):
+    try:
+        replay_case(case, R)
+    except AbortPart:
+        pass
+
+
+def replay_case(case, R):
     pos = case["pos"]
     if pos == "dep-frame":
         DepFrames(R).check(case["role"], case["brty"], case["frame"])
@@ -3101,5 +3814,5 @@ def replay(case, R):
         Threaded(R).run_inject(case)
     elif pos in ("snep-server", "handover-server"):
         Threaded(R).run_server(case)
-    elif pos == "snep-client":
+    elif pos in ("snep-client", "handover-client"):
         Threaded(R).run_client(case)
